@@ -42,6 +42,9 @@ Call ==
     [] A.act = "setw"      -> SetW(A.i, A.w)
     [] A.act = "start"     -> StartIter(A.it)
     [] A.act = "next"      -> NextIt(A.it)
+    [] A.act = "collect"   -> Collect(A.it)
+    [] A.act = "hwc"       -> HeldWrite(A.it, A.j, A.row)
+    [] A.act = "hwq"       -> HeldWriteQ(A.it, A.j, A.row)
     [] A.act = "dump"      -> Dump(A.fmt)
     [] A.act = "cdump"     -> CDump(A.i, A.fmt)
     [] A.act = "ser"       -> Ser
